@@ -14,6 +14,7 @@ import (
 
 	"verifharness/core"
 	"verifharness/gen"
+	"verifharness/lib"
 	rm "verifharness/refmodel"
 )
 
@@ -34,6 +35,32 @@ func runC16(c *core.Ctx) {
 		var sh gen.Shape
 		for tries := 0; tries < 20; tries++ {
 			m, s := gen.LeaseSet2(r)
+			if i%3 == 2 {
+				// ... or from the constructor (what a publisher encrypts), offline keys of every
+				// transient type included: the plaintext is the value's own serialisation
+				v := m
+				v.Flags &= 6
+				if v.Offline != nil {
+					v.Flags |= 1
+				}
+				if len(v.Leases) == 0 {
+					v.Leases = []rm.Lease2{gen.Lease2(r)}
+				}
+				v.Keys = nil
+				for j := 0; j < 1+r.Pick(3); j++ {
+					t := []int{4, 0}[r.Pick(2)]
+					kl, _ := rm.CryptoLen(t)
+					v.Keys = append(v.Keys, rm.EncKey{Type: uint16(t), Data: r.Bytes(kl)})
+				}
+				if built, ok, err := lib.BuildLeaseSet2(v, nil); ok && err == nil {
+					if b, err := built.Bytes(); err == nil {
+						ls2, plain, sh = *built, b, s
+						sh["constructed"] = true
+						break
+					}
+				}
+				continue
+			}
 			p, rem, err := lease_set2.ReadLeaseSet2(m.Encode())
 			if err == nil && len(rem) == 0 {
 				ls2, plain, sh = p, m.Encode(), s
